@@ -392,6 +392,18 @@ impl WorkerTree {
                     }
                 }
             }
+
+            // restart the work that depends on files located under the removed directory
+            let removed_dependencies: Vec<_> = self
+                .external_dependencies
+                .keys()
+                .filter(|dependency| dependency.starts_with(&path))
+                .cloned()
+                .collect();
+
+            for dependency in removed_dependencies {
+                self.update_external_dependencies(&dependency);
+            }
         }
 
         self.update_external_dependencies(&path);
